@@ -8,7 +8,7 @@ usage: try_seed.py <prop> <agent-worktree> <n> [<store-as-number>]
 import sys, os, subprocess, json, glob, shutil, re
 ENV=dict(os.environ, GOFLAGS='-mod=mod', GOPROXY='off', GOSUMDB='off', GOTOOLCHAIN='local', GOWORK='off')
 def sh(cmd, cwd=None, timeout=1500):
-    return subprocess.run(cmd, shell=True, cwd=cwd, env=ENV, capture_output=True, text=True, timeout=timeout)
+    return subprocess.run(cmd, shell=True, cwd=cwd, env=ENV, capture_output=True, text=True, errors='replace', timeout=timeout)
 def main():
     prop, wt, n = sys.argv[1], sys.argv[2], sys.argv[3]
     asn = sys.argv[4] if len(sys.argv)>4 and not sys.argv[4].startswith('--') else n
@@ -25,6 +25,8 @@ def main():
     scratch=f'/tmp/ver-{prop}-{asn}'
     sh(f'git -C /repo worktree remove --force {scratch}'); shutil.rmtree(scratch, ignore_errors=True)
     r=sh(f'git -C /repo worktree add -q --detach {scratch} HEAD'); assert r.returncode==0, r.stderr
+    # private temp dir: the storage suite names its directory after the current second, which collides between parallel runs
+    os.makedirs(scratch+'.tmp', exist_ok=True); ENV['TMPDIR']=scratch+'.tmp'
     res={'property':prop,'seed':n,'files':files,'demo':rel}
     try:
         r=sh(f'git apply {diff}', cwd=scratch); assert r.returncode==0, 'patch does not apply: '+r.stderr
@@ -46,7 +48,7 @@ def main():
         res['demo_without_change']='pass' if r2.returncode==0 else 'FAIL(unexpected)'
         if r2.returncode!=0: res['demo_without_change_tail']=(r2.stdout+r2.stderr)[-600:]
     finally:
-        sh(f'git -C /repo worktree remove --force {scratch}'); shutil.rmtree(scratch, ignore_errors=True)
+        sh(f'git -C /repo worktree remove --force {scratch}'); shutil.rmtree(scratch, ignore_errors=True); shutil.rmtree(scratch+'.tmp', ignore_errors=True); ENV.pop('TMPDIR',None)
     confirmed = all(res.get(f'suite_{m}_with_change')=='pass' for m in mods) and res['demo_with_change']=='fail' and res['demo_without_change']=='pass'
     res['confirmed']=confirmed
     # run all checks of the touched modules on a scratch copy of /repo with the change applied
